@@ -495,6 +495,97 @@ func init() {
 			_ = consumers
 		}})
 
+	register(&Obligation{ID: "C15.f", Props: []string{"C15"}, Template: "paired-update",
+		Desc: "the checkpoint ticker follows the Running state: the task that sets StatusRunning arms a fresh ticker (clock.Every) on every path, because every transition to StatusPaused stops the previous one and a stopped ticker never fires again",
+		Run: func(r *Run) {
+			st := r.P.Func("jobs", "(*Job).start")
+			info := st.Pkg.TypesInfo
+			tick := r.P.Field("jobs", "Job", "checkpointTicker")
+			clock := r.P.Field("jobs", "Job", "clock")
+			status := r.P.Field("jobs", "Job", "status")
+			running := r.P.Pkg("jobs").Types.Scope().Lookup("StatusRunning")
+			paused := r.P.Pkg("jobs").Types.Scope().Lookup("StatusPaused")
+			if running == nil || paused == nil {
+				r.Error("unresolved anchor: jobs.StatusRunning / StatusPaused")
+				return
+			}
+			setsStatus := func(n ast.Node, to types.Object) (pos token.Pos) {
+				ast.Inspect(n, func(m ast.Node) bool {
+					call, ok := m.(*ast.CallExpr)
+					if !ok || len(call.Args) != 1 {
+						return true
+					}
+					sel, ok := ast.Unparen(call.Fun).(*ast.SelectorExpr)
+					if ok && sel.Sel.Name == "Set" && prog.SelField(info, sel.X) == status && prog.IdentObj(info, call.Args[0]) == to {
+						pos = call.Pos()
+					}
+					return true
+				})
+				return
+			}
+			// (1) the literal that sets StatusRunning assigns the ticker from clock.Every on all paths
+			var lit *ast.FuncLit
+			ast.Inspect(st.Decl.Body, func(n ast.Node) bool {
+				if fl, ok := n.(*ast.FuncLit); ok && lit == nil && setsStatus(fl.Body, running).IsValid() {
+					lit = fl
+				}
+				return true
+			})
+			if lit == nil {
+				r.Error("undecided: Job.start no longer queues a task that sets StatusRunning")
+				return
+			}
+			r.Site(lit.Pos(), "task that sets StatusRunning")
+			n := r.assignsFieldOnAllPaths(lit, st.Name()+"$running", tick, func(c *pathsim.Ctx, rhs ast.Expr) bool {
+				call, ok := ast.Unparen(rhs).(*ast.CallExpr)
+				if !ok {
+					return false
+				}
+				sel, ok := ast.Unparen(call.Fun).(*ast.SelectorExpr)
+				return ok && sel.Sel.Name == "Every" && prog.SelField(c.Info, sel.X) == clock
+			}, "arm-ticker", "the job can enter StatusRunning without arming a fresh checkpoint ticker: the previous ticker was stopped when the job paused, so after a recovery no checkpoint is ever started again")
+			if n == 0 {
+				r.Fail(st.Name()+"$running:arm-ticker:none", lit.Pos(), nil, "the task that sets StatusRunning never assigns Job.checkpointTicker")
+			}
+			// (2) every transition to StatusPaused is followed, in the same block, by stopping the ticker
+			nPaused := 0
+			for _, file := range r.P.Pkg("jobs").Syntax {
+				ast.Inspect(file, func(nd ast.Node) bool {
+					blk, ok := nd.(*ast.BlockStmt)
+					if !ok {
+						return true
+					}
+					for i, s := range blk.List {
+						es, ok := s.(*ast.ExprStmt)
+						if !ok || !setsStatus(es, paused).IsValid() {
+							continue
+						}
+						nPaused++
+						r.Site(es.Pos(), "transition to StatusPaused")
+						stopped := false
+						for _, later := range blk.List[i+1:] {
+							ast.Inspect(later, func(m ast.Node) bool {
+								if call, ok := m.(*ast.CallExpr); ok {
+									if sel, ok := ast.Unparen(call.Fun).(*ast.SelectorExpr); ok && sel.Sel.Name == "Stop" && prog.SelField(info, sel.X) == tick {
+										stopped = true
+									}
+								}
+								return true
+							})
+						}
+						if !stopped {
+							sc := r.P.ScopeAt(es.Pos())
+							r.Fail(sc.Name(r.P)+":pause-stops-ticker", es.Pos(), nil, "the job is set to StatusPaused without stopping the checkpoint ticker: it keeps starting checkpoints on the abandoned assembly, and a second ticker is armed on the next start")
+						}
+					}
+					return true
+				})
+			}
+			if nPaused < 2 {
+				r.Error("floor: only %d transitions to StatusPaused found (2 confirmed by hand)", nPaused)
+			}
+		}})
+
 	register(&Obligation{ID: "C15.e", Props: []string{"C15", "C16", "C13"}, Template: "error-discipline",
 		Desc: "jobs/job.go: the errors of Assembly.AssignSplits, SourceSplitter.Start and Assembly.UpdateRetainedCheckpoints are not discarded",
 		Run: func(r *Run) {
